@@ -125,13 +125,13 @@ class C15Machine(Machine):
         if index % 3 == 2:
             return self.gen_roundtrip(rng)
         small = tier == 'quick'
-        wide = rng.chance(0.04)
+        wide = rng.chance(0.08)
         exp = expgen.gen_experiment(rng, faults=False, max_samples=2 if small else 4, max_beads=1 if small else 2, small=small,
                                     wide=wide)
         if wide:
             # a wide panel: one row reports (almost) every fluorescence channel
             fl = exp['instruments'][0]['fl']
-            exp['samples'][0]['units'] = {c: rng.choice(['RFI', 'Channel', 'a.u.']) for c in fl[:rng.choice([10, 11, 12])]}
+            exp['samples'][0]['units'] = {c: rng.choice(['RFI', 'Channel', 'a.u.']) for c in fl[:rng.choice([10, 11, 12, 12])]}
             exp['beads'] = []
             for s_ in exp['samples']:
                 s_['Beads ID'] = None
@@ -144,11 +144,11 @@ class C15Machine(Machine):
         exp['extra_sheet'] = rng.chance(0.3)
         if rng.chance(0.05):
             exp['samples'] = []                       # a Samples sheet with a header and no rows is still well formed
-        plot = rng.chance(0.12 if small else 0.25) or (wide and rng.chance(0.7))
+        plot = rng.chance(0.12 if small else 0.25) or (wide and rng.chance(0.8))
         if plot and exp['samples'] and rng.chance(0.4):
             exp['samples'][-1]['units'] = {}              # a row that reports no channel still gets its figure
             exp['samples'][-1]['Beads ID'] = None
-        return {'arm': 'run', 'exp': exp, 'plot': plot, 'hist': rng.chance(0.5), 'explicit_out': rng.chance(0.5),
+        return {'arm': 'run', 'exp': exp, 'plot': plot, 'hist': rng.chance(0.5), 'explicit_out': rng.choice([False, False, True, 'bare']),
                 'in_name': rng.choice(['experiment.xlsx', 'experiment.xlsx', 'plate.1.xlsx', 'my data v2.0.xlsx', 'a.b.c.xlsx', 'x.xlsx']),
                 'preexisting_dirs': rng.chance(0.4), 'rerun': rng.chance(0.3), 'relative_input': rng.wchoice([(False, 6), (True, 2), ('bare', 2)]),
                 'subdir': rng.chance(0.3), 'seed': rng.randint(0, 2 ** 31 - 1), 'dpi': rng.choice([20, 30, 60]),
@@ -338,6 +338,8 @@ class C15Machine(Machine):
                     os.makedirs(os.path.join(wdir, 'plot_beads'), exist_ok=True)
                     os.makedirs(os.path.join(wdir, 'plot_samples'), exist_ok=True)
                 out_path = os.path.join(wdir, 'results', 'out.xlsx') if case.get('explicit_out') else None
+                if case.get('explicit_out') == 'bare':
+                    out_path = os.path.join(wdir, 'results.xlsx')      # `-o results.xlsx`: no directory component
                 if out_path:
                     os.makedirs(os.path.dirname(out_path), exist_ok=True)
 
@@ -380,6 +382,12 @@ class C15Machine(Machine):
                 if out_path:
                     run_out = os.path.relpath(out_path, os.path.dirname(wdir))
                 out['probes']['relative_input_path'] = 1
+            elif case.get('explicit_out') == 'bare' and case['arm'] == 'run':
+                # `flowcal -i /data/exp/experiment.xlsx -o results.xlsx` typed inside the folder
+                os.chdir(wdir)
+                run_out = os.path.basename(out_path)
+            if case.get('explicit_out') == 'bare' and case['arm'] == 'run' and run_out == os.path.basename(out_path):
+                out['probes']['explicit_output_without_directory'] = 1
             signal.signal(signal.SIGALRM, _alarm)
             signal.setitimer(signal.ITIMER_REAL, LIVENESS_S)
             t0 = _time.time()
